@@ -40,6 +40,7 @@ import (
 const vC13Deadline = 20 * time.Second
 
 type vC13Sub struct {
+	N      string `json:"n"` // serving node: L (partition leader) | F (in-sync follower)
 	G      string `json:"g"`
 	C      string `json:"c"`
 	E      int64  `json:"e"`
@@ -56,10 +57,10 @@ type vC13Reg struct {
 }
 
 type vC13State struct {
-	Subs   []vC13Sub          `json:"subs"`
-	Reg    map[string]int     `json:"reg"`
-	RegCE  map[string]vC13Reg `json:"regce"`
-	NLoops int64              `json:"nloops"`
+	Subs   []vC13Sub                     `json:"subs"`
+	Reg    map[string]map[string]int     `json:"reg"`    // node -> group -> index
+	RegCE  map[string]map[string]vC13Reg `json:"regce"`  // node -> group -> entry
+	NLoops map[string]int64              `json:"nloops"` // node -> running loops
 }
 
 type vC13Obs struct {
@@ -78,14 +79,16 @@ type vC13Event struct {
 
 type vC13Run struct {
 	t      *testing.T
-	srv    *Server
-	p      *partition
+	srv    map[string]*Server    // L, F
+	p      map[string]*partition // each server's own partition object
 	stream string
 	id     int
 	groups []string
 	subs   []*vC13Sub
-	base   int64 // subscriberCount before the behaviour
+	base   map[string]int64 // subscriberCount of each partition object before the behaviour
 }
+
+var vC13Nodes = []string{"L", "F"}
 
 func vC13Count(p *partition) int64 {
 	p.mu.RLock()
@@ -93,15 +96,15 @@ func vC13Count(p *partition) int64 {
 	return p.subscriberCount
 }
 
-func (r *vC13Run) waitCount(want int64, what string) {
+func (r *vC13Run) waitCount(n string, want int64, what string) {
 	deadline := time.Now().Add(vC13Deadline)
 	for {
-		if vC13Count(r.p) == want {
+		if vC13Count(r.p[n]) == want {
 			return
 		}
 		if time.Now().After(deadline) {
-			r.t.Fatalf("INCONCLUSIVE: behaviour %d: %s: subscriberCount=%d, waited for %d",
-				r.id, what, vC13Count(r.p), want)
+			r.t.Fatalf("INCONCLUSIVE: behaviour %d: %s: subscriberCount[%s]=%d, waited for %d",
+				r.id, what, n, vC13Count(r.p[n]), want)
 		}
 		time.Sleep(20 * time.Microsecond)
 	}
@@ -124,29 +127,33 @@ func vIsClosed(s *subscription) bool {
 }
 
 func (r *vC13Run) state() vC13State {
-	st := vC13State{Subs: []vC13Sub{}, Reg: map[string]int{}, RegCE: map[string]vC13Reg{}}
+	st := vC13State{Subs: []vC13Sub{}, Reg: map[string]map[string]int{},
+		RegCE: map[string]map[string]vC13Reg{}, NLoops: map[string]int64{}}
 	for _, s := range r.subs {
 		c := *s
 		c.Open = !vIsClosed(s.sub)
 		st.Subs = append(st.Subs, c)
 	}
-	for _, g := range r.groups {
-		m := r.p.GetGroupConsumer(r.realGroup(g))
-		if m == nil {
-			st.Reg[g] = 0
-			st.RegCE[g] = vC13Reg{}
-			continue
-		}
-		idx := -1
-		for i, s := range r.subs {
-			if s.sub == m.sub {
-				idx = i + 1
+	for _, n := range vC13Nodes {
+		st.Reg[n], st.RegCE[n] = map[string]int{}, map[string]vC13Reg{}
+		for _, g := range r.groups {
+			m := r.p[n].GetGroupConsumer(r.realGroup(g))
+			if m == nil {
+				st.Reg[n][g] = 0
+				st.RegCE[n][g] = vC13Reg{}
+				continue
 			}
+			idx := -1
+			for i, s := range r.subs {
+				if s.sub == m.sub {
+					idx = i + 1
+				}
+			}
+			st.Reg[n][g] = idx
+			st.RegCE[n][g] = vC13Reg{S: idx, C: m.consumerID, E: int64(m.groupEpoch)}
 		}
-		st.Reg[g] = idx
-		st.RegCE[g] = vC13Reg{S: idx, C: m.consumerID, E: int64(m.groupEpoch)}
+		st.NLoops[n] = vC13Count(r.p[n]) - r.base[n]
 	}
-	st.NLoops = vC13Count(r.p) - r.base
 	return st
 }
 
@@ -162,6 +169,9 @@ func vC13ErrClass(err error) string {
 	case codes.FailedPrecondition:
 		if st.Message() == "Consumer is not currently assigned this partition" {
 			return "stale"
+		}
+		if st.Message() == "Server not partition leader" {
+			return "notleader"
 		}
 		return "other:" + st.Message()
 	case codes.InvalidArgument, codes.ResourceExhausted:
@@ -182,15 +192,24 @@ func (r *vC13Run) step(step map[string]interface{}) vC13Event {
 		}()
 		switch a {
 		case "Subscribe":
-			g, c, e, bad := vStr(step, "g"), vStr(step, "c"), vInt(step, "e"), vBool(step, "bad")
-			args["g"], args["c"], args["e"], args["bad"] = g, c, e, bad
+			q := step["q"].(map[string]interface{})
+			n, ris := vStr(q, "n"), vBool(q, "ris")
+			g, c, e, bad, stop := vStr(q, "g"), vStr(q, "c"), vInt(q, "e"), vBool(q, "bad"), vStr(q, "stop")
+			args["q"] = map[string]interface{}{"n": n, "ris": ris, "g": g, "c": c, "e": e, "bad": bad, "stop": stop}
 			req := &client.SubscribeRequest{
-				Stream:        r.stream,
-				Partition:     0,
-				StartPosition: client.StartPosition_NEW_ONLY,
+				Stream:         r.stream,
+				Partition:      0,
+				StartPosition:  client.StartPosition_NEW_ONLY,
+				ReadISRReplica: ris,
 			}
 			if g != "" {
 				req.Consumer = &client.Consumer{GroupId: r.realGroup(g), GroupEpoch: uint64(e), ConsumerId: c}
+			}
+			if stop != "none" {
+				// a stop position that is not reached (the log is empty): the
+				// subscription keeps running like an open-ended one
+				req.StopPosition = client.StopPosition_STOP_OFFSET
+				req.StopOffset = vIntDef(step, "stopoff", 1000)
 			}
 			if bad {
 				switch vStrDef(step, "badkind", "start") {
@@ -205,18 +224,18 @@ func (r *vC13Run) step(step map[string]interface{}) vC13Event {
 					req.StopOffset = 2
 				}
 			}
-			before := vC13Count(r.p)
+			before := vC13Count(r.p[n])
 			ctx, cancel := context.WithCancel(context.Background())
-			sub, err := r.srv.api.SubscribeInternal(ctx, req)
+			sub, err := r.srv[n].api.SubscribeInternal(ctx, req)
 			obs.Err = vC13ErrClass(err)
 			if err != nil || sub == nil {
 				cancel()
 				return
 			}
-			r.subs = append(r.subs, &vC13Sub{G: g, C: c, E: e, Loop: true, sub: sub, cancel: cancel})
+			r.subs = append(r.subs, &vC13Sub{N: n, G: g, C: c, E: e, Loop: true, sub: sub, cancel: cancel})
 			obs.ID = len(r.subs)
 			// the loop goroutine registers itself asynchronously
-			r.waitCount(before+1, "loop start")
+			r.waitCount(n, before+1, "loop start")
 		case "Burst":
 			// the consumers subscribe CONCURRENTLY (goroutines released together)
 			g, e := vStr(step, "g"), vInt(step, "e")
@@ -233,7 +252,7 @@ func (r *vC13Run) step(step map[string]interface{}) vC13Event {
 			out := make([]res, len(cs))
 			start := make(chan struct{})
 			var wg sync.WaitGroup
-			before := vC13Count(r.p)
+			before := vC13Count(r.p["L"])
 			for i := range cs {
 				wg.Add(1)
 				go func(i int) {
@@ -246,7 +265,7 @@ func (r *vC13Run) step(step map[string]interface{}) vC13Event {
 					}
 					ctx, cancel := context.WithCancel(context.Background())
 					<-start
-					sub, err := r.srv.api.SubscribeInternal(ctx, req)
+					sub, err := r.srv["L"].api.SubscribeInternal(ctx, req)
 					out[i] = res{sub, err, cancel}
 				}(i)
 			}
@@ -260,7 +279,7 @@ func (r *vC13Run) step(step map[string]interface{}) vC13Event {
 					continue
 				}
 				accepted++
-				r.subs = append(r.subs, &vC13Sub{G: g, C: cs[i], E: e, Loop: true, sub: o.sub, cancel: o.cancel})
+				r.subs = append(r.subs, &vC13Sub{N: "L", G: g, C: cs[i], E: e, Loop: true, sub: o.sub, cancel: o.cancel})
 			}
 			switch {
 			case len(classes) > 1:
@@ -270,7 +289,7 @@ func (r *vC13Run) step(step map[string]interface{}) vC13Event {
 			default:
 				obs.ID = accepted
 			}
-			r.waitCount(before+int64(accepted), "burst loops start")
+			r.waitCount("L", before+int64(accepted), "burst loops start")
 		case "Cancel":
 			s := int(vInt(step, "s"))
 			args["s"] = s
@@ -301,10 +320,10 @@ func (r *vC13Run) step(step map[string]interface{}) vC13Event {
 // sees the closed subscription or hands its final status to whoever reads the
 // error channel (the API handler) - the harness plays that reader.
 func (r *vC13Run) exitLoop(x *vC13Sub) {
-	before := vC13Count(r.p)
+	before := vC13Count(r.p[x.N])
 	x.cancel()
 	deadline := time.After(vC13Deadline)
-	for vC13Count(r.p) != before-1 {
+	for vC13Count(r.p[x.N]) != before-1 {
 		select {
 		case <-x.sub.Errors():
 		case <-x.sub.Messages():
@@ -325,7 +344,9 @@ func (r *vC13Run) finish() {
 			x.cancel()
 		}
 	}
-	r.waitCount(r.base, "end of behaviour")
+	for _, n := range vC13Nodes {
+		r.waitCount(n, r.base[n], "end of behaviour")
+	}
 }
 
 func TestVerifGroupSub(t *testing.T) {
@@ -334,31 +355,56 @@ func TestVerifGroupSub(t *testing.T) {
 	defer tw.Close()
 
 	defer os.RemoveAll(storagePath)
-	srv := vOneNodeServer(t, vOneNodeConfig(t, "a"))
-	defer srv.Stop()
+	// two servers: the stream is replicated on both, one leads the partition, the
+	// other follows it (and has its own partition object and group table)
+	cfgA := vOneNodeConfig(t, "a")
+	srvA := vOneNodeServer(t, cfgA)
+	defer srvA.Stop()
+	srvB, err := RunServerWithConfig(vJoinConfig(t, "b", cfgA))
+	if err != nil {
+		t.Fatalf("INCONCLUSIVE: second server did not start: %v", err)
+	}
+	defer srvB.Stop()
 
 	stream := "c13"
-	if _, err := srv.api.CreateStream(context.Background(),
-		&client.CreateStreamRequest{Name: stream, Subject: "c13"}); err != nil {
-		t.Fatalf("INCONCLUSIVE: create stream: %v", err)
-	}
-	var p *partition
-	deadline := time.Now().Add(vC13Deadline)
+	deadline := time.Now().Add(3 * vC13Deadline)
 	for {
-		p = srv.metadata.GetPartition(stream, 0)
-		if p != nil {
-			if l, _ := p.GetLeader(); l == "a" && p.IsLeader() {
+		_, err := srvA.api.CreateStream(context.Background(),
+			&client.CreateStreamRequest{Name: stream, Subject: "c13", ReplicationFactor: 2})
+		if err == nil {
+			break
+		}
+		// the second server may not have joined the cluster yet
+		if time.Now().After(deadline) {
+			t.Fatalf("INCONCLUSIVE: create stream: %v", err)
+		}
+		time.Sleep(50 * time.Millisecond)
+	}
+	srv := map[string]*Server{}
+	p := map[string]*partition{}
+	for {
+		pa, pb := srvA.metadata.GetPartition(stream, 0), srvB.metadata.GetPartition(stream, 0)
+		if pa != nil && pb != nil {
+			la, _ := pa.GetLeader()
+			lb, _ := pb.GetLeader()
+			if la == lb && la == "a" && pa.IsLeader() && pb.isFollowingNow() {
+				srv["L"], srv["F"], p["L"], p["F"] = srvA, srvB, pa, pb
+				break
+			}
+			if la == lb && la == "b" && pb.IsLeader() && pa.isFollowingNow() {
+				srv["L"], srv["F"], p["L"], p["F"] = srvB, srvA, pb, pa
 				break
 			}
 		}
 		if time.Now().After(deadline) {
-			t.Fatalf("INCONCLUSIVE: partition did not start")
+			t.Fatalf("INCONCLUSIVE: partition did not start on both servers")
 		}
 		time.Sleep(time.Millisecond)
 	}
 
 	for _, b := range sf.Behaviours {
-		run := &vC13Run{t: t, srv: srv, p: p, stream: stream, id: b.ID, base: vC13Count(p)}
+		run := &vC13Run{t: t, srv: srv, p: p, stream: stream, id: b.ID,
+			base: map[string]int64{"L": vC13Count(p["L"]), "F": vC13Count(p["F"])}}
 		for _, g := range b.Cfg["groups"].([]interface{}) {
 			run.groups = append(run.groups, g.(string))
 		}
@@ -369,4 +415,11 @@ func TestVerifGroupSub(t *testing.T) {
 		}
 		run.finish()
 	}
+}
+
+// isFollowingNow: the partition object runs its follower loop
+func (p *partition) isFollowingNow() bool {
+	p.mu.RLock()
+	defer p.mu.RUnlock()
+	return p.isFollowing
 }
